@@ -104,13 +104,13 @@ fn eta<M: Machine>() -> f64 {
     }
 }
 
-fn sorted_records<M: Machine>(w: &World<M>, m: &Model) -> [Vec<Bits>; 2] {
+pub fn sorted_records<M: Machine>(w: &World<M>, m: &Model) -> [Vec<Bits>; 2] {
     let mut out: [Vec<Bits>; 2] = [Vec::new(), Vec::new()];
     if M::LOCKSTEP {
-        let mut idx = m.items[0].clone();
+        let mut idx: Vec<(u32, u32)> = m.items[0].iter().copied().zip(m.pair_b.iter().copied()).collect();
         idx.sort_unstable();
-        out[0] = idx.iter().map(|&i| w.tapes[0][i as usize]).collect();
-        out[1] = idx.iter().map(|&i| w.tapes[1][i as usize]).collect();
+        out[0] = idx.iter().map(|&(i, _)| w.tapes[0][i as usize]).collect();
+        out[1] = idx.iter().map(|&(_, j)| w.tapes[1][j as usize]).collect();
     } else {
         for k in 0..2 {
             let mut idx = m.items[k].clone();
